@@ -493,6 +493,10 @@ impl ReCompiler {
                     {
                         if let Some(simple_char) = simple_char {
                             builder.add_char(simple_char);
+                            if self.re_flags.is_case_independent() {
+                                let cm = CaseMapCloser::new();
+                                cm.add_case_closure_to(simple_char, &mut builder);
+                            }
                         }
                     } else if self.there_follows("--") {
                         return Err(Error::syntax("Unescaped hyphen cannot act as end of range"));
